@@ -26,6 +26,21 @@ def pty_slave() -> int:
     return _PTY[1]
 
 
+def set_tty_mode(mode: str) -> None:
+    """Initial attribute set of the pty: default (canonical, echo) / noecho / raw / cbreak05."""
+    fd = pty_slave()
+    a = termios.tcgetattr(fd)
+    if mode == "noecho":
+        a[3] &= ~termios.ECHO
+    elif mode == "raw":
+        a[3] &= ~(termios.ECHO | termios.ICANON | termios.ISIG)
+        a[6][termios.VMIN], a[6][termios.VTIME] = 0, 0
+    elif mode == "cbreak05":
+        a[3] &= ~termios.ICANON
+        a[6][termios.VMIN], a[6][termios.VTIME] = 0, 5
+    termios.tcsetattr(fd, termios.TCSANOW, a)
+
+
 class Fault(BaseException):
     """Marker base so that the harness can tell its own injected exceptions."""
 
@@ -140,6 +155,8 @@ def run_new(case: dict, fault=None) -> dict:
 
     R.sleep = fake_sleep
     fin0 = dict(DrawProbe.finalize_log)
+    pristine = termios.tcgetattr(pty_slave())
+    set_tty_mode(case.get("tty_mode", "default"))
     before = termios.tcgetattr(pty_slave())
     tell0, size0 = p.tell(), tuple(p.render_size)
     outcome = "ok"
@@ -164,8 +181,7 @@ def run_new(case: dict, fault=None) -> dict:
         sys.stdout = old
     gc.collect()
     after = termios.tcgetattr(pty_slave())
-    if after != before:
-        termios.tcsetattr(pty_slave(), termios.TCSANOW, before)
+    termios.tcsetattr(pty_slave(), termios.TCSANOW, pristine)
     fins = sum(v - fin0.get(k, 0) for k, v in DrawProbe.finalize_log.items())
     return {
         "text": cap.text(),
